@@ -10,6 +10,7 @@ import MW.Lemmas.LedgerStatus
 import MW.Lemmas.ImportLive
 import MW.Lemmas.ImportExact
 import MW.Lemmas.ImportJoinMain
+import MW.Lemmas.ImportExt
 namespace MW.Props.C07
 open MW MW.Model.Ledger MW.Model.Import MW.Lemmas.ImportPlan
 
@@ -698,6 +699,99 @@ theorem import_observed_static_joined (batch : Nat) (hb : batch > 0) (c : Ctx) (
   have H : ObsHyp c s' c.node.chain := ⟨hI', hwf hU, hC.valid, hC.heights, hlen, hcb, hstk⟩
   exact ⟨coins_perm H w', fun hr => balance_correct H hr mc⟩
 
+-- ------------------------------------------------------------------ stage 2: the chain grows while the rescan runs
+
+open MW.Lemmas.ImportExact MW.Lemmas.Ledger in
+/-- **import_extensions_inv** (stage 2 of `import_exact_full`, TIP EXTENSIONS; PARTIAL: the restored keystore is the
+    instance's only one, and reorganisations are not covered).  Events (`MW.Lemmas.ImportExact.stepX`): a worker
+    batch of any positive size (run only while the wallet is not ready), or the node appends a block to its best
+    chain and the follower is notified at once (`processBlock` on the extended node).  For EVERY interleaving whose
+    final chain is valid: the follower stays at the node's tip and either the wallet is still importing and the
+    store holds exactly the books of the chain up to its cursor (`Scan`: while nobody is ready `filterBlock` only
+    moves the synced-to table, so the books stay "up to the cursor" although the chain has grown), or the wallet
+    is ready and the store satisfies C01's invariant `Inv` for the node's whole chain (after the hand-over the live
+    follower books the new blocks: C01 `connect_sound`). -/
+theorem import_extensions_inv (batch : Nat) (hb : batch > 0) (p : Params) (own : Own) (wallets : List Wid) (w : Wid)
+    (hAR : AllReady own [w]) (hws : wallets = [w]) (sys0 : XSys) (evs : List XEv)
+    (hC : ChainOK { p := p, own := own, wallets := wallets, node := (evs.foldl (stepX batch p own wallets w) sys0).node })
+    (hnb : (evs.foldl (stepX batch p own wallets w) sys0).node.chain.length + batch < 2 ^ 64)
+    (h0 : XInv p own wallets w sys0) : XInv p own wallets w (evs.foldl (stepX batch p own wallets w) sys0) :=
+  foldX_inv hb hAR hws evs sys0 hC hnb h0
+
+open MW.Lemmas.ImportExact MW.Lemmas.Ledger in
+/-- **import_exact_extensions_partial.**  … hence: whenever, after any interleaving of batches and tip extensions
+    starting from the scan invariant (e.g. the import moment, `scan_fresh`), the wallet is done, the store satisfies
+    `Inv` for the node's whole chain — including the blocks that arrived DURING the rescan and after it — the
+    follower is at the node's tip and the unspent index is well-formed; so the restored wallet reports
+    `Spec.Chain` (C01 `coins_perm` / `balance_correct`, as in `import_observed_static`). -/
+theorem import_exact_extensions_partial (batch : Nat) (hb : batch > 0) (p : Params) (own : Own) (wallets : List Wid)
+    (w : Wid) (hAR : AllReady own [w]) (hws : wallets = [w]) (sys0 : XSys) (evs : List XEv) (ws0 : WStatus) (k0 : Nat)
+    (hS : Scan { p := p, own := own, wallets := wallets, node := sys0.node } w sys0.s k0)
+    (hst : AMap.get sys0.s.status w = some ws0) (hk : ws0.synced = some k0) (hrm : ws0.removed = false)
+    (hbest : sys0.v.best.height + 1 = sys0.node.chain.length) (hle : k0 ≤ sys0.v.best.height)
+    (hC : ChainOK { p := p, own := own, wallets := wallets, node := (evs.foldl (stepX batch p own wallets w) sys0).node })
+    (hnb : (evs.foldl (stepX batch p own wallets w) sys0).node.chain.length + batch < 2 ^ 64)
+    (hdone : AMap.get (evs.foldl (stepX batch p own wallets w) sys0).s.status w = some ⟨none, false⟩) :
+    Inv { p := p, own := own, wallets := wallets, node := (evs.foldl (stepX batch p own wallets w) sys0).node }
+        (evs.foldl (stepX batch p own wallets w) sys0).s (evs.foldl (stepX batch p own wallets w) sys0).node.chain ∧
+      (evs.foldl (stepX batch p own wallets w) sys0).v.best.height + 1 =
+        (evs.foldl (stepX batch p own wallets w) sys0).node.chain.length ∧
+      KeysNodup (evs.foldl (stepX batch p own wallets w) sys0).s.unspent := by
+  obtain ⟨h1, h2⟩ := foldX_inv hb hAR hws evs sys0 hC hnb ⟨hbest, Or.inl ⟨ws0, k0, hst, hk, hrm, hle, hS⟩⟩
+  rcases h2 with ⟨ws, k, hst', hk', _⟩ | ⟨_, hI, hU⟩
+  · rw [hdone] at hst'
+    cases hst'
+    cases hk'
+  · exact ⟨hI, h1, hU⟩
+
+open MW.Lemmas.ImportExact in
+/-- the stage-2 events are events of `import_exact_full`'s semantics (`stepEv`): a batch is `Ev.batch`, an extension
+    is the node movement `Ev.node (chain ++ [b])` followed by the notification `Ev.block b` -/
+theorem stepX_is_stepEv (batch : Nat) (p : Params) (own : Own) (wallets : List Wid) (w : Wid) (sys : Sys) (b : Block) :
+    (let r := stepEv batch p own wallets w (stepEv batch p own wallets w sys (.node (sys.node.chain ++ [b]))) (.block b)
+     b.prev = sys.v.best.hash →
+      let x := stepX batch p own wallets w ⟨sys.node, sys.s, sys.v⟩ (.extend b)
+      x.node = r.node ∧ x.s = r.s ∧ x.v = r.v) ∧
+    (let r := stepEv batch p own wallets w sys .batch
+     (∃ k rm, AMap.get sys.s.status w = some ⟨some k, rm⟩) →
+      let x := stepX batch p own wallets w ⟨sys.node, sys.s, sys.v⟩ .batch
+      x.node = r.node ∧ x.s = r.s ∧ x.v = r.v) := by
+  constructor
+  · intro r hprev
+    simp only [stepX, hprev, if_true]
+    exact ⟨rfl, rfl, rfl⟩
+  · intro r ⟨k, rm, hst⟩
+    simp only [stepX, hst]
+    show _ ∧ _ ∧ _
+    simp only [r, stepEv]
+    cases importStep batch { p := p, own := own, wallets := wallets, node := sys.node } w sys.s sys.v with
+    | error e => exact ⟨rfl, rfl, rfl⟩
+    | ok x => obtain ⟨s', v', f⟩ := x; exact ⟨rfl, rfl, rfl⟩
+
+/-- FULL statement of stage 2, kept type-checked; NOT PROVED.  Other wallets in the instance (ready ones are booked
+    by the live follower while `w` imports), batches interleaved with ARBITRARY notifications — extensions and
+    reorganisations above / at / below the cursor (`processBlock` → `reorg` → `rollback` / `disconnectBlock` with
+    the cursor pull-back) — and node movements (`stepEv`): whenever the wallet is done and the follower has caught
+    up with the node, the store satisfies `Inv` for the node's chain.  What is proved of it:
+    `import_exact_static_full` (no event but batches, other wallets present) and
+    `import_exact_extensions_partial` (extensions, single keystore).  Missing: (a) the follower's `filterBlock` on a
+    JOINED store (the mirror image of `addImp_join`: the book operations of the ready wallets' view commute with the
+    join — `SepR` for the `w`-half, `filterTxs` with a keystore table in which `w` is not ready); (b) `rollback` on a
+    joined store (it looks addresses up in ALL keystores and undoes both halves; with `pullBack` the `w`-half shrinks
+    to the fork point); (c) the pending-side congruence (`MinedEq`) for histories with unconfirmed transactions. -/
+def import_exact_moving_full : Prop :=
+  ∀ (batch : Nat) (p : Params) (own : Own) (wallets : List Wid) (w : Wid) (sys0 : Sys) (evs : List Ev),
+    batch > 0 → Lemmas.Ledger.KeysNodup own → w ∈ wallets →
+    Lemmas.Ledger.Inv { p := p, own := own.filter (fun e => e.2.1 ≠ w), wallets := wallets, node := sys0.node }
+      sys0.s sys0.node.chain →
+    AMap.get sys0.s.status w = some ⟨some 0, false⟩ → AMap.get sys0.s.balance w = some 0 →
+    (∃ G, sys0.node.chain[0]? = some G ∧ G.txs = []) →
+    let sys := evs.foldl (stepEv batch p own wallets w) sys0
+    Lemmas.ImportExact.ChainOK { p := p, own := own, wallets := wallets, node := sys.node } →
+    AMap.get sys.s.status w = some ⟨none, false⟩ → sys.v.best.height + 1 = sys.node.chain.length →
+    (∀ h b, sys.node.chain[h]? = some b → AMap.get sys.s.sync h = some b.id) →
+    Lemmas.Ledger.Inv { p := p, own := own, wallets := wallets, node := sys.node } sys.s sys.node.chain
+
 /-- the regenerated constants have the shape the theorems assume (positive batch size and expiry window, the done
     sentinel is the top of uint64) -/
 theorem gen_tie : Gen.Handler.importBatch > 0 ∧ Gen.Handler.maxMemPoolExpire > 0 ∧
@@ -901,5 +995,41 @@ example : ((runBatches 1000 ctxR "W2" 1 stR0 vol).bind (fun r =>
         (r'.2.2.map (·.tx.id), walletBalance r'.1 "W1" 1, walletBalance r'.1 "W2" 1,
          (AMap.get r'.1.blocks 2).map (·.2))))) =
     some (["C1", "T3"], some ⟨300, 300, 0, 0⟩, some ⟨209, 209, 0, 0⟩, some ["C2", "T3"]) := by decide
+
+-- stage 2: B3 arrives while W1 (the only keystore) is being rescanned with batch size 1
+namespace Ex3
+/-- node and follower at B2; W1 just imported -/
+def sys0 : Lemmas.ImportExact.XSys :=
+  { node := { chain := [g, b1, b2], known := ctx.node.known },
+    s := { sync := [(2, "B2"), (1, "B1"), (0, "G")], syncedTo := 2,
+           status := [("W1", ⟨some 0, false⟩)], balance := [("W1", 0)], addrs := [(("W1", false, "A1"), 0)] },
+    v := { best := ⟨2, "B2"⟩ } }
+def evs : List Lemmas.ImportExact.XEv := [.batch, .extend b3, .batch, .batch]
+end Ex3
+
+open MW.Lemmas.ImportExact MW.Lemmas.Ledger in
+/-- every hypothesis of `import_exact_extensions_partial` holds on this history: one batch (cursor 1), block B3
+    arrives, two more batches — the wallet is done at the NEW tip with C01's invariant for [G, B1, B2, B3] -/
+example : Inv { p := ctx.p, own := ctx.own, wallets := ctx.wallets,
+                node := (Ex3.evs.foldl (stepX 1 ctx.p ctx.own ctx.wallets "W1") Ex3.sys0).node }
+    (Ex3.evs.foldl (stepX 1 ctx.p ctx.own ctx.wallets "W1") Ex3.sys0).s [g, b1, b2, b3] := by
+  have hnode : (Ex3.evs.foldl (stepX 1 ctx.p ctx.own ctx.wallets "W1") Ex3.sys0).node = ctx.node := by
+    rfl
+  have hS : Scan { p := ctx.p, own := ctx.own, wallets := ctx.wallets, node := Ex3.sys0.node } "W1" Ex3.sys0.s 0 := by
+    refine scan_fresh (G := g) rfl rfl rfl rfl rfl rfl rfl rfl rfl ?_ rfl
+    intro h
+    match h with
+    | 0 => rfl
+    | 1 => rfl
+    | 2 => rfl
+    | (n + 3) => simp [Ex3.sys0, AMap.get, Spec.Books.syncOf]
+  have := (import_exact_extensions_partial 1 (by decide) ctx.p ctx.own ctx.wallets "W1" ex_allReady rfl Ex3.sys0 Ex3.evs
+    ⟨some 0, false⟩ 0 hS rfl rfl rfl rfl (by decide) (by rw [hnode]; exact ex_chainOK) (by rw [hnode]; decide)
+    (by decide)).1
+  rw [hnode] at this ⊢
+  exact this
+example : (let r := Ex3.evs.foldl (Lemmas.ImportExact.stepX 1 ctx.p ctx.own ctx.wallets "W1") Ex3.sys0
+           (r.v.best, useWallet r.s ctx.wallets "W1", walletBalance r.s "W1" 1)) =
+    (⟨3, "B3"⟩, .ok, some ⟨300, 300, 0, 0⟩) := by decide
 
 end MW.Props.C07
